@@ -99,7 +99,26 @@ def dissect(B: bytes):
     except UnicodeDecodeError:
         ident_line = None
         ident_good = False
+    # the end line as a line: the first line after the identification line that STARTS with '!' (a '!' inside a data
+    # line - e.g. a ')' hit by one bit error - does not end the readout on the wire)
+    end2 = None
+    pos = data_pos
+    while 0 < pos <= len(B):
+        if pos < len(B) and B[pos] == 0x21:
+            end2 = pos
+            break
+        nl = B.find(b"\n", pos)
+        if nl < 0:
+            break
+        pos = nl + 1
+    line_end = None
+    if end2 is not None and end2 != e:
+        nl = B.find(b"\n", end2)
+        t2 = B[end2 + 1:nl if nl >= 0 else len(B)].strip(b" \t\r\n\x0b\x0c")
+        if len(t2) == 4 and all(c in _HEX for c in t2):
+            line_end = {"pos": end2, "sent": int(t2, 16), "crc": crc16_arc(B[:end2 + 1]), "trailer": t2}
     return {
+        "stray_end_char": end2 is not None and end2 != e, "line_end": line_end,
         "bytes": B, "end": e, "data_pos": data_pos, "trailer": trailer, "is_checksum": is_cs,
         "crc": crc16_arc(B[:e + 1]), "sent": int(trailer, 16) if is_cs else None,
         "ident_line": ident_line, "ident_ok": ident_good, "ident_dontcare": bool(ident_line) and ident_questionable(ident_line), "payload": B[data_pos:e] if data_pos <= e else b"",
